@@ -1,16 +1,21 @@
-(* EditFrame.v — C17: every editor of EditWalk.v / EditWalk2.v only appends to the caller's buffer, on ANY input bytes
-   (valid encodings, truncated or corrupted buffers, JSON text, garbage) and any prior buffer content:
-       f args buf = res_map (app buf) (f args [])
-   i.e. if the call on an empty buffer returns `out`, the call on buf returns buf ++ out; if it fails with an error it
-   fails with the same error, if it panics it panics -- the outcome never depends on what the buffer holds.
-   The proofs are by unfolding: nothing that is read, compared or branched on mentions the buffer; it only reaches
-   build_into (BuilderFrame.build_arr_into_frame / build_obj_into_frame, valid for ARBITRARY entries, which is what the
-   iterators hand out on a corrupt input), `extend_from_slice`, or the header-slot patching of build_array /
-   build_object (patch at `start` = the buffer length on entry). *)
+(* EditFrame.v — C17: every editor of EditWalk.v / EditWalk2.v / SetWalk.v only appends to the caller's buffer, on ANY
+   input bytes (valid encodings, truncated or corrupted buffers, JSON text, garbage) and any prior buffer content.
+   The editors are state functions over the buffer (BufSt.v): `f_st args buf = (buffer as left, outcome)`.
+       framed:  f_st args buf = (buf ++ fst (f_st args []), snd (f_st args []))
+   the buffer as left -- after Ok, after Err, at a panic -- is the buffer on entry followed by what the call leaves when
+   started on the empty buffer, and the outcome never depends on what the buffer holds (EditStProofs.v, by walking over
+   the bodies: nothing that is read, compared or branched on mentions the buffer; it only reaches build_into
+   (BuilderFrame.build_arr_into_frame / build_obj_into_frame, valid for ARBITRARY entries, which is what the iterators
+   hand out on a corrupt input), `extend_from_slice`, write_to_vec, or the header-slot patching of build_array /
+   build_object (patch at `start` = the buffer length on entry)).
+       quiet:   snd (f_st args buf) = Err e -> fst (f_st args buf) = buf
+   an error return leaves the buffer exactly as it was (every editor's only write is its last step, after every `?`).
+   build_array / build_object are framed but NOT quiet: `build_st_error_leaves` says what they leave.
+   The view-level corollaries `f_w args buf = res_map (app buf) (f_w args [])` are kept. *)
 From Coq Require Import List NArith ZArith Bool Lia.
 Import ListNotations.
 From JB Require Import Constants Bytes Utf8 Num Value Codec TreeOps JsonText Dispatch Walk Iter Builder BuilderProofs
-  BuilderFrame EditWalk EditWalk2.
+  BuilderFrame BufSt EditWalk EditWalk2 EditStProofs.
 Open Scope N_scope.
 Set Default Timeout 120.
 
@@ -24,34 +29,20 @@ Arguments read_u32 : simpl never.
 Lemma append_enc_res_map buf r : append_enc buf r = res_map (app buf) (append_enc [] r).
 Proof. destruct r; reflexivity. Qed.
 
-(* peel one layer that does not mention the buffer: a bind, a conditional, a match, a destructuring let *)
-Ltac frame_step buf :=
-  match goal with
-  | |- bind ?e _ = res_map _ (bind ?e _) => destruct e; cbn [bind res_map]; try reflexivity
-  | |- (if ?c then _ else _) = res_map _ (if ?c then _ else _) => destruct c; try reflexivity
-  | |- match ?x with _ => _ end = res_map _ (match ?x with _ => _ end) => destruct x; try reflexivity
-  | |- Ok (build_arr_into buf ?es) = _ =>
-      cbn [res_map]; rewrite (build_arr_into_frame buf es); reflexivity
-  | |- Ok (build_obj_into buf ?es) = _ =>
-      cbn [res_map]; rewrite (build_obj_into_frame buf es); reflexivity
-  | |- append_enc buf ?r = res_map _ (append_enc [] ?r) => apply append_enc_res_map
-  end.
-Ltac frame buf := repeat (frame_step buf).
-
-(* ================================================================ EditWalk.v *)
+(* ================================================================ EditWalk.v: the views *)
 Theorem concat_w_frame l r buf : concat_w l r buf = res_map (app buf) (concat_w l r []).
-Proof. unfold concat_w, concat_m, concat_b. frame buf. Qed.
+Proof. apply (view_framed _ (concat_st_framed l r)). Qed.
 
 Theorem delete_by_name_w_frame bs name buf : delete_by_name_w bs name buf = res_map (app buf) (delete_by_name_w bs name []).
-Proof. unfold delete_by_name_w, delete_by_name_m, delete_by_name_b. frame buf. Qed.
+Proof. apply (view_framed _ (delete_by_name_st_framed bs name)). Qed.
 
 Theorem delete_by_index_w_frame bs i buf : delete_by_index_w bs i buf = res_map (app buf) (delete_by_index_w bs i []).
-Proof. unfold delete_by_index_w, delete_by_index_m, delete_by_index_b. frame buf. Qed.
+Proof. apply (view_framed _ (delete_by_index_st_framed bs i)). Qed.
 
 Lemma array_insert_b_frame bs pos nv buf : array_insert_b bs pos nv buf = res_map (app buf) (array_insert_b bs pos nv []).
-Proof. unfold array_insert_b. frame buf. Qed.
+Proof. apply (view_framed _ (array_insert_b_st_framed bs pos nv)). Qed.
 Theorem array_insert_w_frame bs pos nv buf : array_insert_w bs pos nv buf = res_map (app buf) (array_insert_w bs pos nv []).
-Proof. unfold array_insert_w. frame buf; apply array_insert_b_frame. Qed.
+Proof. apply (view_framed _ (array_insert_st_framed bs pos nv)). Qed.
 
 (* build_array / build_object write into the caller's buffer directly: header slot reserved at `start`, entries
    appended in the loop, header patched at `start`, data appended *)
@@ -88,6 +79,59 @@ Proof.
   rewrite patch_prefix, <- app_assoc. reflexivity.
 Qed.
 
+(* what an error return of build_array / build_object leaves behind the caller's bytes: the reserved header slot
+   (four zero bytes, never patched) and the entry words written so far -- for build_array those of the items before the
+   failing one, for build_object the key entries of the members up to AND INCLUDING the failing one (its key entry is
+   pushed before its value's header is read).  No payload byte: `data` / `key_data` / `val_data` are local. *)
+Fixpoint ba_entries (items : list (list N)) : list N :=
+  match items with
+  | [] => []
+  | value :: r => match item_pieces value with Ok (j, _) => j ++ ba_entries r | _ => [] end
+  end.
+Fixpoint bo_entries (members : list (list N * list N)) : list N :=
+  match members with
+  | [] => []
+  | (key, value) :: r =>
+      be32 (jentry_word STRING_TAG (lenN key)) ++ match item_pieces value with Ok _ => bo_entries r | _ => [] end
+  end.
+Lemma ba_loop_buf items : forall buf data len, fst (ba_loop items buf data len) = buf ++ ba_entries items.
+Proof.
+  induction items as [|value r IH]; intros buf data len; cbn [ba_loop ba_entries fst]; [symmetry; apply app_nil_r|].
+  destruct (item_pieces value) as [[j d]|e|]; cbn [fst]; [|symmetry; apply app_nil_r|symmetry; apply app_nil_r].
+  rewrite IH, <- app_assoc. reflexivity.
+Qed.
+Lemma bo_loop_buf members : forall buf kd vd vj len, fst (bo_loop members buf kd vd vj len) = buf ++ bo_entries members.
+Proof.
+  induction members as [|[key value] r IH]; intros buf kd vd vj len; cbn [bo_loop bo_entries fst]; [symmetry; apply app_nil_r|].
+  destruct (item_pieces value) as [[j d]|e|]; cbn [fst]; [|rewrite app_nil_r; reflexivity|rewrite app_nil_r; reflexivity].
+  rewrite IH, <- app_assoc. reflexivity.
+Qed.
+Theorem build_array_st_error_leaves items buf e :
+  snd (build_array_st items buf) = Err e ->
+  fst (build_array_st items buf) = buf ++ repeat 0 4 ++ ba_entries items.
+Proof.
+  unfold build_array_st. pose proof (ba_loop_buf items (buf ++ repeat 0 4) [] 0) as H.
+  destruct (ba_loop items (buf ++ repeat 0 4) [] 0) as [b2 [[data len]|e'|]]; cbn [fst snd] in *; try discriminate.
+  intros _. rewrite H, <- app_assoc. reflexivity.
+Qed.
+Theorem build_object_st_error_leaves keys items buf e :
+  snd (build_object_st keys items buf) = Err e ->
+  fst (build_object_st keys items buf) = buf ++ repeat 0 4 ++ bo_entries (assoc_of_list (combine keys items)).
+Proof.
+  unfold build_object_st, build_object_kv_st.
+  pose proof (bo_loop_buf (assoc_of_list (combine keys items)) (buf ++ repeat 0 4) [] [] [] 0) as H.
+  destruct (bo_loop (assoc_of_list (combine keys items)) (buf ++ repeat 0 4) [] [] [] 0) as [b2 [[[[kd vd] vj] len]|e'|]];
+    cbn [fst snd] in *; try discriminate.
+  intros _. rewrite H, <- app_assoc. reflexivity.
+Qed.
+(* so they are not `quiet`: an error always leaves at least the four bytes of the header slot *)
+Corollary build_array_st_error_appends items buf e :
+  snd (build_array_st items buf) = Err e -> fst (build_array_st items buf) <> buf.
+Proof.
+  intros H E. rewrite (build_array_st_error_leaves items buf e H) in E.
+  apply (f_equal (@length N)) in E. rewrite !app_length in E. cbn [repeat length] in E. lia.
+Qed.
+
 Theorem build_array_w_frame items buf : build_array_w items buf = res_map (app buf) (build_array_w items []).
 Proof.
   unfold build_array_w. rewrite (build_array_st_frame items buf).
@@ -99,37 +143,112 @@ Proof.
   destruct (build_object_st keys items []) as [b r]. cbn [fst snd]. destruct r as [[]|e|]; reflexivity.
 Qed.
 
-(* ================================================================ EditWalk2.v *)
+(* ================================================================ EditWalk2.v: the views *)
 Lemma object_insert_b_frame value key nv upd buf :
   object_insert_b value key nv upd buf = res_map (app buf) (object_insert_b value key nv upd []).
-Proof. unfold object_insert_b. frame buf. Qed.
+Proof. apply (view_framed _ (object_insert_b_st_framed value key nv upd)). Qed.
 Theorem object_insert_w_frame bs key nv upd buf :
   object_insert_w bs key nv upd buf = res_map (app buf) (object_insert_w bs key nv upd []).
-Proof. unfold object_insert_w. frame buf. apply object_insert_b_frame. Qed.
+Proof. apply (view_framed _ (object_insert_st_framed bs key nv upd)). Qed.
 
 Lemma object_filter_b_frame keep value buf : object_filter_b keep value buf = res_map (app buf) (object_filter_b keep value []).
-Proof. unfold object_filter_b. frame buf. Qed.
+Proof. apply (view_framed _ (object_filter_b_st_framed keep value)). Qed.
 Theorem object_delete_w_frame bs ks buf : object_delete_w bs ks buf = res_map (app buf) (object_delete_w bs ks []).
-Proof. unfold object_delete_w, object_delete_b. frame buf. apply object_filter_b_frame. Qed.
+Proof. apply (view_framed _ (object_delete_st_framed bs ks)). Qed.
 Theorem object_pick_w_frame bs ks buf : object_pick_w bs ks buf = res_map (app buf) (object_pick_w bs ks []).
-Proof. unfold object_pick_w, object_pick_b. frame buf. apply object_filter_b_frame. Qed.
+Proof. apply (view_framed _ (object_pick_st_framed bs ks)). Qed.
 
 Theorem strip_nulls_w_frame bs buf : strip_nulls_w bs buf = res_map (app buf) (strip_nulls_w bs []).
-Proof. unfold strip_nulls_w, strip_nulls_m, strip_nulls_b. frame buf. Qed.
+Proof. apply (view_framed _ (strip_nulls_st_framed bs)). Qed.
 
 Theorem delete_by_keypath_w_frame bs ks buf : delete_by_keypath_w bs ks buf = res_map (app buf) (delete_by_keypath_w bs ks []).
-Proof. unfold delete_by_keypath_w, delete_by_keypath_m, delete_by_keypath_b. frame buf. Qed.
+Proof. apply (view_framed _ (delete_by_keypath_st_framed bs ks)). Qed.
 
 (* ================================================================ SetWalk.v (array_distinct / intersection / except) *)
 From JB Require SetWalk.
 Theorem array_distinct_w_frame bs buf : SetWalk.array_distinct_w bs buf = res_map (app buf) (SetWalk.array_distinct_w bs []).
-Proof. unfold SetWalk.array_distinct_w, SetWalk.array_distinct_b. frame buf. Qed.
+Proof. apply (view_framed _ (array_distinct_st_framed bs)). Qed.
 Theorem array_intersection_w_frame l r buf :
   SetWalk.array_intersection_w l r buf = res_map (app buf) (SetWalk.array_intersection_w l r []).
-Proof. unfold SetWalk.array_intersection_w, SetWalk.array_intersection_b. frame buf. Qed.
+Proof. apply (view_framed _ (array_intersection_st_framed l r)). Qed.
 Theorem array_except_w_frame l r buf :
   SetWalk.array_except_w l r buf = res_map (app buf) (SetWalk.array_except_w l r []).
-Proof. unfold SetWalk.array_except_w, SetWalk.array_except_b. frame buf. Qed.
+Proof. apply (view_framed _ (array_except_st_framed l r)). Qed.
+
+(* ================================================================ the state functions: all of them, any input *)
+Lemma build_array_st_framed items : framed (build_array_st items).
+Proof. intros buf. apply build_array_st_frame. Qed.
+Lemma build_object_st_framed keys items : framed (build_object_st keys items).
+Proof. intros buf. apply build_object_st_frame. Qed.
+
+(* the prefix is preserved in all three outcomes, and the outcome does not depend on it *)
+Theorem editors_leave_prefix_on_any_input :
+  (forall l r, framed (concat_st l r)) /\
+  (forall bs name, framed (delete_by_name_st bs name)) /\
+  (forall bs i, framed (delete_by_index_st bs i)) /\
+  (forall bs pos nv, framed (array_insert_st bs pos nv)) /\
+  (forall items, framed (build_array_st items)) /\
+  (forall keys items, framed (build_object_st keys items)) /\
+  (forall bs key nv upd, framed (object_insert_st bs key nv upd)) /\
+  (forall bs ks, framed (object_delete_st bs ks)) /\
+  (forall bs ks, framed (object_pick_st bs ks)) /\
+  (forall bs, framed (strip_nulls_st bs)) /\
+  (forall bs ks, framed (delete_by_keypath_st bs ks)) /\
+  (forall bs, framed (SetWalk.array_distinct_st bs)) /\
+  (forall l r, framed (SetWalk.array_intersection_st l r)) /\
+  (forall l r, framed (SetWalk.array_except_st l r)).
+Proof.
+  repeat match goal with |- _ /\ _ => split end; intros.
+  - apply concat_st_framed.
+  - apply delete_by_name_st_framed.
+  - apply delete_by_index_st_framed.
+  - apply array_insert_st_framed.
+  - apply build_array_st_framed.
+  - apply build_object_st_framed.
+  - apply object_insert_st_framed.
+  - apply object_delete_st_framed.
+  - apply object_pick_st_framed.
+  - apply strip_nulls_st_framed.
+  - apply delete_by_keypath_st_framed.
+  - apply array_distinct_st_framed.
+  - apply array_intersection_st_framed.
+  - apply array_except_st_framed.
+Qed.
+
+(* an error return (and a panic) leaves the buffer exactly as it was: the twelve editors, any input, any buffer *)
+Definition err_leaves {A} (m : stm A) : Prop :=
+  forall buf, (forall e, snd (m buf) = Err e -> fst (m buf) = buf) /\ (snd (m buf) = Panic -> fst (m buf) = buf).
+Lemma err_leaves_of_quiet {A} (m : stm A) : quiet m -> err_leaves m.
+Proof. intros Q buf. split; [apply (quiet_err m Q)|apply (quiet_panic m Q)]. Qed.
+
+Theorem editors_errors_leave_buffer_on_any_input :
+  (forall l r, err_leaves (concat_st l r)) /\
+  (forall bs name, err_leaves (delete_by_name_st bs name)) /\
+  (forall bs i, err_leaves (delete_by_index_st bs i)) /\
+  (forall bs pos nv, err_leaves (array_insert_st bs pos nv)) /\
+  (forall bs key nv upd, err_leaves (object_insert_st bs key nv upd)) /\
+  (forall bs ks, err_leaves (object_delete_st bs ks)) /\
+  (forall bs ks, err_leaves (object_pick_st bs ks)) /\
+  (forall bs, err_leaves (strip_nulls_st bs)) /\
+  (forall bs ks, err_leaves (delete_by_keypath_st bs ks)) /\
+  (forall bs, err_leaves (SetWalk.array_distinct_st bs)) /\
+  (forall l r, err_leaves (SetWalk.array_intersection_st l r)) /\
+  (forall l r, err_leaves (SetWalk.array_except_st l r)).
+Proof.
+  repeat match goal with |- _ /\ _ => split end; intros; apply err_leaves_of_quiet.
+  - apply concat_st_quiet.
+  - apply delete_by_name_st_quiet.
+  - apply delete_by_index_st_quiet.
+  - apply array_insert_st_quiet.
+  - apply object_insert_st_quiet.
+  - apply object_delete_st_quiet.
+  - apply object_pick_st_quiet.
+  - apply strip_nulls_st_quiet.
+  - apply delete_by_keypath_st_quiet.
+  - apply array_distinct_st_quiet.
+  - apply array_intersection_st_quiet.
+  - apply array_except_st_quiet.
+Qed.
 
 (* ================================================================ all of them, in the form the property states *)
 Definition appends_only (f : list N -> res (list N)) : Prop :=
